@@ -384,10 +384,18 @@ func verifShrunk64(k int) []byte {
 	return data
 }
 
+// (Only the direct statement bytes(out) == X mod p: the redundant identity form costs another
+// 50-200 s per path here and is left to the other harnesses.)
 func H_ed25519fp_wide_shrunk_k1_monolithic() {
 	data := verifShrunk64(1)
 	verifReach("ed25519fp_wide_shrunk_k1_monolithic")
-	verifWideCheck(data)
+	var f Fp
+	ok := f.SetBytesWide(data)
+	got := verifLimbs4(f.Bytes())
+	_, _, r := verifWideRef(verifLimbs8(data))
+	verifAssert("shrunk.ok", ok == 1)
+	verifAssert("shrunk.canonical_lt_p", verifLess4(got, verifFpP()) == 1)
+	verifAssert("shrunk.equals_X_mod_p", got == r)
 }
 
 // ---- the same obligation in radix 2^51 (formulation the solver can discharge) ----
@@ -513,10 +521,12 @@ func H_ed25519fp_wide51_64_monolithic_EXPECT_INCONCLUSIVE() {
 //	out = CarryAdd(lo2, hi2)                      eval = S - (k1+k2+k3+k4)*p
 //	bytes = ToBytes(out)                          = eval(out) mod p, canonical.
 
+// verifTight: an arbitrary tight element. Each limb ranges over exactly [0, 2^51]: 51 free low
+// bits plus a free 0/1 (no assumption, so concrete self-test runs are never dropped).
 func verifTight() (f fiatFpTightFieldElement) {
 	for i := range f {
-		f[i] = verifU64()
-		verifAssume(f[i] <= 1<<51)
+		v := verifU64()
+		f[i] = v&verifMask51 + v>>63
 	}
 	return f
 }
